@@ -43,6 +43,7 @@ class Ctx:
         self.rule = ""
         self.exhaustive = False
         self._nrep = 0
+        self.defer_guards = False
 
     @property
     def quick(self):
@@ -163,6 +164,11 @@ class Ctx:
     def judge(self, rejected, pid=None):
         pid = pid or self.pid
         for e, clause in rejected:
+            if self.defer_guards and clause.endswith("_guard"):
+                # domain/guard behaviour is C14's statement, not this property's: counted, judged there
+                self.extra["guard_mismatches_left_to_C14"] = self.extra.get("guard_mismatches_left_to_C14", 0) + 1
+                self.validated += 1
+                continue
             if clause.startswith("drift:"):
                 # differs from the model but the property's own predicate holds
                 self.drift += 1
